@@ -18,7 +18,7 @@ from harness.jsonsafe import rat, ratx
 RULE = ('cases = (operation x shape 1..4 x real/complex x layout class x plain-number entries x number of factors); non-trivial = matrix of '
         'dimension >= 2 or entries on more than one ensemble')
 ASSUMPTIONS = ['matrices are built with prescribed singular values in [0.5, 2] and eigenvalue gaps >= 0.25 (well-conditioned, non-degenerate)',
-               'all entries that carry a chain carry it on the same configuration list; an entry may lack whole replicas of an ensemble (its fluctuations are then projected with the up-weight ObsCore!DeriveChains states, which C01 checks on its own)',
+               'an entry may be known on a part of a chain only, and may lack whole replicas of an ensemble (its fluctuations are then projected with the up-weight ObsCore!DeriveChains states, which C01 checks on its own)',
                'identities compared at 1e-7 relative plus 1e-8 of the natural scale; jackknife products within 4*scale*dmax^2/(N-1)']
 
 
@@ -41,6 +41,9 @@ def ens_groups(pool):
     return list(g.values())
 
 
+SUBLISTS = [False]          # switched on per matrix: one entry (any position) keeps the full lists, so that the union is the pool
+
+
 def entry_obs(rng, pool, v, rel=0.03):
     groups = ens_groups(pool)
     k = int(rng.integers(1, len(groups) + 1))
@@ -50,8 +53,19 @@ def entry_obs(rng, pool, v, rel=0.03):
         if len(names) > 1 and rng.random() < 0.4:
             # the entry lacks whole replicas of this ensemble
             names = [names[i] for i in sorted(rng.choice(len(names), size=int(rng.integers(1, len(names))), replace=False).tolist())]
-        samples = [v / len(chosen) + rel * (abs(v) + 0.2) * rng.normal(size=len(pool[n])) for n in names]
-        p = pe.Obs(samples, names, idl=[pool[n] for n in names])
+        # an entry may be known on fewer configurations of a chain than its neighbours (first / second half, every other one, a random subset)
+        idls = []
+        for n in names:
+            full = list(pool[n])
+            if SUBLISTS[0] and len(full) >= 10 and rng.random() < 0.3:
+                kind = str(rng.choice(['first', 'second', 'odd', 'even', 'random']))
+                sub = full[:len(full) // 2] if kind == 'first' else full[len(full) // 2:] if kind == 'second' else full[1::2] if kind == 'odd' else full[0::2] \
+                    if kind == 'even' else sorted(rng.choice(full, size=max(5, len(full) - 3), replace=False).tolist())
+                idls.append([int(c) for c in sub] if len(sub) >= 5 else full)
+            else:
+                idls.append(pool[n])
+        samples = [v / len(chosen) + rel * (abs(v) + 0.2) * rng.normal(size=len(il)) for il in idls]
+        p = pe.Obs(samples, names, idl=idls)
         o = p if o is None else o + p
     return o + (v - o.value)
 
@@ -71,10 +85,14 @@ def flat(o, pool):
         size[e][1] += len(pool[n]) if n in o.idl else 0
     for n in sorted(pool):
         if n in o.idl:
-            if list(o.idl[n]) != list(pool[n]):
+            full, mine = list(pool[n]), list(o.idl[n])
+            if not set(mine) <= set(full):
                 return {'v': 'nan', 'd': []}
             tot, own = size[n.split('|')[0]]
-            d += [ratx(float(x) * tot / own) for x in o.deltas[n]]
+            # ... and an entry known on a part of a chain enters with zeros elsewhere and the weight |union| / |own| (same rule)
+            w = tot / own * len(full) / len(mine)
+            at = dict(zip(mine, o.deltas[n]))
+            d += [ratx(float(at[c]) * w) if c in at else '0' for c in full]
         else:
             d += ['0'] * len(pool[n])
     extra = [n for n in o.names if n not in pool and n != '###dummy_covobs###']
@@ -115,17 +133,21 @@ def values_matrix(rng, m, n=None, kind='general'):
     return u @ S @ v.T
 
 
-def obs_matrix(rng, pool, vals, plain_frac=0.0, symmetric=False):
+def obs_matrix(rng, pool, vals, plain_frac=0.0, symmetric=False, common_lists=False):
     m, n = vals.shape
     M = np.empty((m, n), dtype=object)
+    sub = bool(rng.random() < 0.35) and m * n > 1 and not common_lists
+    keep_full = (int(rng.integers(0, m)), int(rng.integers(0, n)))
     for i in range(m):
         for j in range(n):
             if symmetric and j < i:
                 M[i, j] = M[j, i]
-            elif rng.random() < plain_frac:
+            elif rng.random() < plain_frac and (i, j) != keep_full:
                 M[i, j] = float(vals[i, j])
             else:
+                SUBLISTS[0] = sub and (i, j) != keep_full
                 M[i, j] = entry_obs(rng, pool, float(vals[i, j]))
+                SUBLISTS[0] = False
     return M
 
 
@@ -254,7 +276,7 @@ def cases_for(rng, n, ctx):
             N = int(rng.integers(10, 60))
             pool = {'J|r1': gen.make_idl(rng, str(rng.choice(['contig', 'irregular'])), N)}
             nf = int(rng.integers(2, 4))
-            mats = [obs_matrix(rng, pool, values_matrix(rng, m)) for _ in range(nf)]
+            mats = [obs_matrix(rng, pool, values_matrix(rng, m), common_lists=True) for _ in range(nf)]       # the jackknife products work on one common configuration list
             # a caller who exported an entry's jackknife samples before and went on working with that array has not touched the entry
             e00 = mats[0][0, 0]
             if isinstance(e00, pe.Obs) and len(e00.names) == 1 and rng.random() < 0.5:
